@@ -472,6 +472,20 @@ pub fn gen_statement<F: PrimeField>(rng: &mut Rng, curve: Curve, kn: &Knobs) -> 
         }
     }
 
+    // occasionally a LONG statement: hundreds of constraint rows (crossing
+    // 256 / 512 rows) over the same few variables; rows cost nothing to prove
+    if chance(rng, 1, 40) && g.model.table.len() > 0 {
+        let extra = 200 + below(rng, 500);
+        let cx = ExprCtx { table_len: phase1_table_len_ops(&g.ops), gates: 0, m: 0, nchals: 0, raw_refs: false, pending: None };
+        // the model used for constants must be the phase-1 model: only when there is no block
+        if !g.ops.iter().any(|o| matches!(o, Op::Randomized(_))) {
+            for _ in 0..extra {
+                let e = gen_expr(rng, &cx, 1);
+                let val: F = g.model.eval(&e);
+                g.push_constrain(Expr::sub(e, Expr::K(S::of(&val))));
+            }
+        }
+    }
     Statement {
         curve,
         tlabel,
@@ -479,6 +493,10 @@ pub fn gen_statement<F: PrimeField>(rng: &mut Rng, curve: Curve, kn: &Knobs) -> 
         bases,
         ops: g.ops,
     }
+}
+
+fn phase1_table_len_ops(ops: &[Op]) -> usize {
+    ops.iter().map(op_outputs).sum()
 }
 
 /// Scripted corner cases, so every probe of section 2.2 fires in the quick tier.
